@@ -99,3 +99,37 @@ func (fc *FnCtx) havocOn(st *State, name string) {
 		fc.notes.Assumed["unspecified "+name+": ghost state "+strings.Join(d.Ghosts, " ")+" treated as unknown afterwards"] = true
 	}
 }
+
+// keyWith(m, "F", v): the key of map m whose entry has field F equal to v. It is defined only
+// when F is injective over the entries present: the axiom says that then keyWith inverts the
+// map. An invariant "forall k :: k in m ==> keyWith(m, F, m[k].F) == k" states injectivity with
+// one bound variable; the two-variable form (forall k1 k2 ...) as an assumption is instantiated
+// for every pair of entry terms in a query, which made solving times erratic.
+func (fc *FnCtx) keyWith(st *State, m Term, mapTy types.Type, field string, v Term) (Term, types.Type) {
+	dh, vh, mt := fc.mapHeaps(mapTy)
+	sst, ok := mt.Elem().Underlying().(*types.Struct)
+	if !ok {
+		fc.unsup("keyWith: entries of %s are not structs", mapTy)
+	}
+	fi, err := fieldIndex(sst, field)
+	if err != nil {
+		fc.unsup("keyWith: %v", err)
+	}
+	te := fc.TE
+	ks := te.SortOf(mt.Key())
+	vs := te.SortOf(mt.Elem())
+	fs := te.SortOf(sst.Field(fi).Type())
+	if v.Sort != fs {
+		fc.unsup("keyWith: value of sort %s for field %s of sort %s", v.Sort, field, fs)
+	}
+	cs, ds := ArraySort(ks, vs), ArraySort(ks, SBool)
+	name := "keywith." + sanitize(types.TypeString(mt, nil)) + "." + field
+	te.G.DeclareFun(name, []string{cs, ds, fs}, ks)
+	proj := func(k string) string {
+		return te.FieldOf(mt.Elem(), Term{fmt.Sprintf("(select c!kw %s)", k), vs}, fi).S
+	}
+	ax := fmt.Sprintf("(assert (forall ((c!kw %s) (d!kw %s) (v!kw %s)) (! (=> (forall ((k1!kw %s) (k2!kw %s)) (=> (and (select d!kw k1!kw) (select d!kw k2!kw) (not (= k1!kw k2!kw))) (not (= %s %s)))) (forall ((k!kw %s)) (! (=> (select d!kw k!kw) (= (%s c!kw d!kw %s) k!kw)) :pattern ((select c!kw k!kw)) :qid keywith.inv))) :pattern ((%s c!kw d!kw v!kw)) :qid keywith.def)))",
+		cs, ds, fs, ks, ks, proj("k1!kw"), proj("k2!kw"), ks, name, proj("k!kw"), name)
+	te.G.AddAxiom(name+".def", ax, name)
+	return app(ks, name, Select(fc.heapGet(st, vh), m), Select(fc.heapGet(st, dh), m), v), mt.Key()
+}
